@@ -2,7 +2,7 @@
    instances of the generic results of Proof/ThriftP.v with compact_ok and
    binary_ok.  Props/C16.v states them. *)
 From Coq Require Import ZArith List Bool Lia.
-From Tally Require Import Base.Obs Model.Varint Model.Thrift
+From Tally Require Import Base.ObsCore Model.Varint Model.Thrift
   Proof.VarintP Proof.ThriftP Proof.ThriftCompactP Proof.ThriftBinaryP.
 Import ListNotations.
 Open Scope Z_scope.
